@@ -11,7 +11,7 @@ from pyvc.values import *
 from pyvc.interp import Obj, Builtin, BoundMethod, Closure
 from pyvc.script import Script
 from pyvc.npmodel import EPS
-from .common import run_loop_body
+from .common import run_loop_body, guard
 
 MOD = "shangrla.core.NonnegMean"
 INF = XR.const(float("inf"))
@@ -1997,3 +1997,36 @@ def default_eta(S, I, variant):
         k = indices(S, n, "k")[0]
         S.eq("SPRT factor uses eta_k = (N u(1-eps) - PS(k))/(N-k) when no alternative is given", cps[0].at(k),
              alpha_factor(x.at(k), mu_spec(Nspec, eta_def, PS, k), mu_spec(Nspec, t, PS, k), u))
+
+
+# ------------------------------------------------------------------ the constructor (C11, C12, C01): a test object is what its arguments say
+
+@script(["C11", "C12", "C01"], "NonnegMean.__init__/post (every argument is stored; methods are bound to the object)",
+        variants=(("kaplan_wald",), ("kaplan_markov",), ("kaplan_kolmogorov",), ("alpha_mart",), ("betting_mart",)))
+def constructor_post(S, I, variant):
+    tname = variant[0]
+    cls = I.get(MOD, "NonnegMean")
+    u = S.real("u", lo_strict=0)
+    t = S.real("t", lo_strict=0, hi_strict=u)
+    Nv = S.choose("N", ["inf", "finite"])
+    N = XR.const(float("inf")) if Nv == "inf" else S.integer("N_finite", lo=1)
+    ro = S.boolean("random_order")
+    g = S.real("g", lo=0, hi=1)
+    eta = S.real("eta", lo=t, hi=u)
+    kw = {"test": I.get(MOD, "NonnegMean." + tname), "u": u, "N": N, "t": t, "random_order": ro, "g": g, "eta": eta}
+    if tname == "betting_mart":
+        kw["bet"] = I.get(MOD, "NonnegMean.fixed_bet")
+        kw["lam"] = S.real("lam", lo=0, hi=1)
+    obj, exc = guard(S, I, lambda: I.call(cls, [], kw))
+    if exc:
+        return
+    a = obj.attrs
+    S.holds("u, N, t and random_order are stored as given",
+            band(xsame(xr(a.get("u")), u), bterm(I.equal(a.get("N"), N)), xsame(xr(a.get("t")), t),
+                 biff(bterm(mkbool(I.truth_term(a.get("random_order")))), bterm(ro)) if a.get("random_order") is not None else False))
+    S.holds("keyword parameters (g, eta, lam, ...) become attributes", band(xsame(xr(a.get("g")), g) if a.get("g") is not None else False,
+                                                                          xsame(xr(a.get("eta")), eta) if a.get("eta") is not None else False))
+    tm = a.get("test")
+    S.holds("the test is the requested method, bound to this object",
+            type(tm).__name__ == "BoundMethod" and getattr(tm, "selfv", None) is obj
+            and getattr(getattr(tm, "fn", None), "qual", "").endswith("." + tname))
